@@ -186,7 +186,7 @@ fn bound_sweep(args: &Args, rep: &mut Report) {
     // long bounds (decades to the whole supported range), judged against the unbounded next_change
     let long_exprs = ["2020 Mo 10:00-12:00", "2020,2075 Mo 10:00-12:00", "Mo-Fr 10:00-18:00", "2030 Mar 12-2031 Feb 02", "1950-2400/50 Jan 01", "week 53 Su", "Feb 29", "9000-9999 easter", "2020 Jan; 2300 Dec off", "Sa[5] 22:00-26:00 unknown"];
     let mut long_bounds: Vec<i64> = vec![1500, 2000, 3000, 3652, 3653, 5000, 7305, 7500, 10_000, 10_248, 10_249, 10_250, 12_000, 15_000, 18_263, 20_000, 30_000, 36_525, 50_000, 100_000, 365_250, 1_000_000, 2_958_463, 3_000_000];
-    for d in (1300..40_000).step_by(if args.thorough() { 97 } else { 997 }) {
+    for d in (1300..40_000).step_by(if args.thorough() { 397 } else { 997 }) {
         long_bounds.push(d);
     }
     let mut lidx = 0u64;
@@ -267,8 +267,9 @@ pub fn run(args: &Args, rep: &mut Report) {
         let case = gen_case(args, k, &cfg, rep);
         let mut r = case.rng.clone();
         let mut bound = gen_bound(&mut r, args.thorough());
-        // 0.3% of the cases: a bound of decades to millennia, judged against the unbounded next_change
-        let long = r.below(1000) < 3;
+        // ~600 cases per run (0.3% in the quick tier): a bound of decades to millennia, judged against the unbounded next_change
+        // (an absolute number of such cases per run, ~600: each costs seconds of day-by-day walking)
+        let long = r.below(n.max(1) * args.of.max(1)) < 600;
         if long {
             bound = Duration::days(*r.pick(&[3_653i64, 9_000, 10_250, 14_000, 18_263, 30_000, 50_000, 150_000, 1_000_000, 2_958_463])) + Duration::minutes(*r.pick(&[0i64, 0, 1, -1, 720]));
         }
